@@ -191,6 +191,8 @@ register(PropertySpec(
              "the recursive reset / invalidation traversals apply themselves to every child on every path (no subtree is skipped)"),
         Rule("CLEAR-COMPLETE", _lazy("cacheidx", "rule_clear_complete"), 4,
              "(shared with C20) invalidating a result cache after an abandoned evaluation also withdraws its coverage marks"),
+        Rule("MEMO-SOURCE-FAILURE", _lazy("lazy", "rule_memo_source_failure"), 1,
+             "a one-shot domain source that raised (user code inside a sub-query used as a domain) is not mistaken for an exhausted one"),
     ],
     explanation="History independence is absence of residue on the shared expression nodes. Decided: where residue is "
                 "written (discovered mechanically from dataclass fields and mutation sites reachable from evaluation "
@@ -303,6 +305,10 @@ register(PropertySpec(
              "for a true or for a false row"),
         Rule("SELECT-PER-ROW", _lazy("ruletree", "rule_select_per_row"), 3,
              "the conclusions a selector exposes with a row are withdrawn before it produces the next row"),
+        Rule("DEDUP-CONCLUSIONS", _lazy("binding", "rule_dedup_conclusions"), 2,
+             "the failed rows of a rule are keyed by what the alternative tried next tests AND by what it concludes on"),
+        Rule("CONCLUDED-PER-CONCLUSION", _lazy("ruletree", "rule_concluded_per_conclusion"), 2,
+             "what a selector remembers as already concluded is remembered per conclusion, not only per binding of its variables"),
     ],
     explanation="Attaching a branch rewires the condition tree in place; evaluation follows the left/right fields, not "
                 "the graph edges, so a selector that is attached in the graph but not stored in its parent's operand slot "
@@ -613,6 +619,8 @@ register(PropertySpec(
              "the collection / scalar classifier shared by flatten and concatenate excludes strings by isinstance (subclasses of str are scalars)"),
         Rule("BIND-THREAD", _lazy("binding", "rule_bind_thread"), 30,
              "(shared with C02) a condition relating the element to its own parent evaluates the second operand under the row of the first"),
+        Rule("FLATTEN-OCCURRENCE", _lazy("aggregates", "rule_flatten_occurrence"), 1,
+             "two occurrences of the same object in one flattened collection are distinguishable rows wherever rows are de-duplicated"),
     ],
     explanation="UNNEST is 'one row per inner element, all other variables keep the binding that produced it': the "
                 "first half is a path property of one small generator, the second is the BIND-KEEP provenance rule at "
